@@ -1,7 +1,393 @@
-(* C07 -- proofs (work in progress: grows below) *)
-From PV Require Import Lib.Base Model.C07 Gen.C07_Schemas.
-From Coq Require Import QArith Ascii.
+(* C07 -- proofs about the line codec of Model/C07.v *)
+From PV Require Import Lib.Base Lib.Round Model.C07 Proofs.C07_lib Gen.C07_Schemas.
+From Coq Require Import QArith Ascii DecimalString DecimalN DecimalPos.
+#[local] Open Scope string_scope.
+#[local] Open Scope Z_scope.
+
+(* ------------------------------------------------------------------ the scanner inverts out_pattern.format *)
+
+Lemma fill_nil_inv ts s : fill [] ts = Some s -> ts = [] /\ s = "".
+Proof. destruct ts; simpl; intros H; inversion H; auto. Qed.
+
+Lemma count_fill_rigid r : forall ts s,
+  rigid r = true -> texts_ok r ts = true -> fill r ts = Some s ->
+  count_char comma s = lit_commas r.
+Proof.
+  induction r as [|e r IH]; intros ts s Hr Ht Hf.
+  - apply fill_nil_inv in Hf as [_ ->]. reflexivity.
+  - destruct e as [l|nm c cl m|nm c m|nm c m]; simpl in Hr; try discriminate.
+    + simpl in Hf, Ht. destruct (fill r ts) as [s'|] eqn:F; [|discriminate]. inversion Hf; subst.
+      simpl. rewrite count_char_app. f_equal. eapply IH; eauto.
+    + apply andb_true_iff in Hr as [Hc Hr].
+      destruct ts as [|t ts']; simpl in Ht, Hf; [discriminate|].
+      destruct (fill r ts') as [s'|] eqn:F; [|discriminate]. inversion Hf; subst.
+      apply andb_true_iff in Ht as [Ht Ht2]. apply andb_true_iff in Ht as [Ht0 Ht1].
+      rewrite count_char_app. simpl.
+      rewrite (count_char_none comma (cc_in cl) t Ht0); [|apply negb_true_iff; exact Hc].
+      simpl. eapply IH; eauto.
+Qed.
+
+Lemma fill_total sch : forall ts, texts_ok sch ts = true -> exists s, fill sch ts = Some s.
+Proof.
+  induction sch as [|e sch IH]; intros ts H.
+  - destruct ts; [eexists; reflexivity | discriminate].
+  - destruct e as [l|nm c cl m|nm c m|nm c m]; simpl in *.
+    + destruct (IH _ H) as [s ->]. eauto.
+    + destruct ts as [|t ts']; [discriminate|]. apply andb_true_iff in H as [_ H].
+      destruct (IH _ H) as [s ->]. eauto.
+    + destruct ts as [|t ts']; [discriminate|]. apply andb_true_iff in H as [_ H].
+      destruct (IH _ H) as [s ->]. eauto.
+    + destruct ts as [|t ts']; [discriminate|]. apply andb_true_iff in H as [_ H].
+      destruct (IH _ H) as [s ->]. eauto.
+Qed.
+
+Lemma scan_greedy nm c m r s :
+  scan (Greedy nm c m :: r) s =
+  match split_k (lit_commas r) s with
+  | Some (a, b) =>
+      if (m <=? String.length a)%nat then
+        match scan r b with Some ts => Some (a :: ts) | None => None end
+      else None
+  | None => None
+  end.
+Proof. reflexivity. Qed.
+
+Theorem scan_fill_lemma sch : forall ts s,
+  schema_wf sch = true -> texts_ok sch ts = true -> fill sch ts = Some s -> scan sch s = Some ts.
+Proof.
+  induction sch as [|e sch IH]; intros ts s Hwf Ht Hf.
+  - apply fill_nil_inv in Hf as [-> ->]. reflexivity.
+  - destruct e as [l|nm c cl m|nm c m|nm c m].
+    + simpl in *. destruct (fill sch ts) as [s'|] eqn:F; [|discriminate]. inversion Hf; subst.
+      rewrite strip_prefix_app. eapply IH; eauto.
+    + cbn [schema_wf] in Hwf. apply andb_true_iff in Hwf as [Hwf Hwf2]. apply andb_true_iff in Hwf as [_ Hnext].
+      destruct ts as [|t ts']; cbn [texts_ok fill] in Ht, Hf; [discriminate|].
+      destruct (fill sch ts') as [s'|] eqn:F; [|discriminate]. inversion Hf; subst. clear Hf.
+      apply andb_true_iff in Ht as [Ht Ht2]. apply andb_true_iff in Ht as [Ht0 Ht1].
+      cbn [scan].
+      assert (Hsp : span (cc_in cl) (t ++ s') = (t, s')).
+      { apply span_app; auto.
+        destruct sch as [|e2 sch2].
+        - apply fill_nil_inv in F as [_ ->]. exact I.
+        - destruct e2 as [l| | |]; try discriminate.
+          cbn [fill] in F. destruct (fill sch2 ts') as [s2|]; [|discriminate]. inversion F; subst.
+          destruct l as [|c0 l0]; [discriminate|]. simpl. simpl in Hnext. apply negb_true_iff in Hnext. exact Hnext. }
+      rewrite Hsp, Ht1. rewrite (IH ts' s' Hwf2 Ht2 F). reflexivity.
+    + cbn [schema_wf] in Hwf. apply andb_true_iff in Hwf as [_ Hshape].
+      destruct sch as [|[l| | |] [|? ?]]; try discriminate.
+      destruct ts as [|t ts']; cbn [texts_ok fill] in Ht, Hf; [discriminate|].
+      apply andb_true_iff in Ht as [Ht1 Ht2].
+      destruct ts'; [|discriminate]. inversion Hf; subst. clear Hf.
+      cbn [scan]. rewrite app_nil_r_s, strip_suffix_app, Ht1. reflexivity.
+    + cbn [schema_wf] in Hwf. apply andb_true_iff in Hwf as [Hwf Hwf2]. apply andb_true_iff in Hwf as [Hwf Hrig].
+      apply andb_true_iff in Hwf as [_ Hfirst].
+      destruct ts as [|t ts']; cbn [texts_ok fill] in Ht, Hf; [discriminate|].
+      destruct (fill sch ts') as [s'|] eqn:F; [|discriminate]. inversion Hf; subst. clear Hf.
+      apply andb_true_iff in Ht as [Ht1 Ht2].
+      pose proof (count_fill_rigid sch ts' s' Hrig Ht2 F) as Hcount.
+      destruct sch as [|[l| | |] sch2]; try discriminate.
+      destruct l as [|c0 l0]; [discriminate|]. apply Ascii.eqb_eq in Hfirst. subst c0.
+      assert (Es : exists t0, s' = String comma t0).
+      { cbn [fill] in F. destruct (fill sch2 ts'); [|discriminate]. inversion F. simpl. eauto. }
+      destruct Es as [t0 Es].
+      assert (Hsplit : split_k (lit_commas (Lit (String comma l0) :: sch2)) (t ++ s') = Some (t, s')).
+      { rewrite Es. apply split_k_app. rewrite <- Es. exact Hcount. }
+      rewrite scan_greedy, Hsplit, Ht1. rewrite (IH ts' s' Hwf2 Ht2 F). reflexivity.
+Qed.
+
+(* ------------------------------------------------------------------ lines *)
+
+Section Lines.
+Variable tab : keytab.
+
+(* the value survives its own codec (proved per codec below) *)
+Definition field_rt (c : codec) (v : value) : Prop :=
+  exists t, enc tab c v = Some t /\ dec tab c t = Some (norm c v).
+
+(* "every field value its format version allows": each value fits its codec and its text fits the
+   character class of the pattern *)
+Definition fields_ok (sch : schema) (vs : list value) : Prop :=
+  Forall2 field_rt (codecs sch) vs /\
+  exists ts, map2_opt (enc tab) (codecs sch) vs = Some ts /\ texts_ok sch ts = true.
+
+Lemma codecs_rt cs : forall vs, Forall2 field_rt cs vs ->
+  exists ts, map2_opt (enc tab) cs vs = Some ts /\ map2_opt (dec tab) cs ts = Some (norm_line cs vs).
+Proof.
+  induction 1 as [|c v cs vs [t [He Hd]] _ [ts [Hes Hds]]].
+  - exists []. split; reflexivity.
+  - exists (t :: ts). simpl. rewrite He, Hes, Hd, Hds. split; reflexivity.
+Qed.
+
+Theorem line_roundtrip_lemma sch vs :
+  schema_wf sch = true -> fields_ok sch vs ->
+  exists s, format_line tab sch vs = Some s /\ parse_line tab sch s = Some (norm_line (codecs sch) vs).
+Proof.
+  intros Hwf [Hrt [ts [Hts Hok]]].
+  destruct (codecs_rt _ _ Hrt) as [ts' [He Hd]]. rewrite Hts in He. inversion He; subst ts'.
+  destruct (fill_total _ _ Hok) as [s Hs].
+  exists s. unfold format_line, parse_line. rewrite Hts. split; [exact Hs|].
+  rewrite (scan_fill_lemma sch ts s Hwf Hok Hs). exact Hd.
+Qed.
+
+Lemma enc_norm c v : enc tab c (norm c v) = enc tab c v.
+Proof. destruct c; destruct v; reflexivity. Qed.
+
+Lemma map2_enc_norm cs : forall vs, map2_opt (enc tab) cs (norm_line cs vs) = map2_opt (enc tab) cs vs.
+Proof.
+  induction cs as [|c cs IH]; intros [|v vs]; simpl; auto. rewrite enc_norm, IH. reflexivity.
+Qed.
+
+(* writing the parsed object again gives the identical text *)
+Theorem line_fixpoint_lemma sch vs :
+  schema_wf sch = true -> fields_ok sch vs ->
+  exists s vs', format_line tab sch vs = Some s /\ parse_line tab sch s = Some vs' /\
+                format_line tab sch vs' = Some s.
+Proof.
+  intros Hwf Hok. destruct (line_roundtrip_lemma sch vs Hwf Hok) as [s [Hf Hp]].
+  exists s, (norm_line (codecs sch) vs). repeat split; auto.
+  unfold format_line in *. rewrite map2_enc_norm. exact Hf.
+Qed.
+
+(* ------------------------------------------------------------------ codecs *)
+
+Lemma all_digits_uint u : all_chars is_digit (NilEmpty.string_of_uint u) = true.
+Proof. induction u; simpl; auto. Qed.
+
+Lemma string_of_uint_nonempty u : u <> Decimal.Nil -> nonempty (NilEmpty.string_of_uint u) = true.
+Proof. destruct u; simpl; congruence. Qed.
+
+Lemma to_uint_nonnil n : N.to_uint n <> Decimal.Nil.
+Proof. destruct n; simpl; [discriminate | apply Unsigned.to_uint_nonnil]. Qed.
+
+Lemma print_N_digits n : all_chars is_digit (print_N n) = true.
+Proof. apply all_digits_uint. Qed.
+Lemma print_N_nonempty n : nonempty (print_N n) = true.
+Proof. apply string_of_uint_nonempty, to_uint_nonnil. Qed.
+
+Lemma parse_print_N n : 0 <= n -> parse_N (print_N n) = Some n.
+Proof.
+  intros H. unfold parse_N. rewrite print_N_nonempty, print_N_digits. simpl.
+  unfold print_N. rewrite NilEmpty.usu, DecimalN.Unsigned.of_to, Z2N.id; auto.
+Qed.
+
+Lemma print_N_first n : exists c r, print_N n = String c r /\ is_digit c = true.
+Proof.
+  pose proof (print_N_nonempty n) as H1. pose proof (print_N_digits n) as H2.
+  destruct (print_N n) as [|c r]; [discriminate|]. simpl in H2. apply andb_true_iff in H2 as [H2 _]. eauto.
+Qed.
+
+Lemma parse_print_Z z : parse_Z (print_Z z) = Some z.
+Proof.
+  unfold print_Z. destruct (z <? 0) eqn:E.
+  - simpl. rewrite parse_print_N by lia. f_equal. lia.
+  - destruct (print_N_first z) as [c [r [E1 E2]]]. unfold parse_Z. rewrite E1.
+    assert (c <> "-"%char) by (intros ->; discriminate).
+    rewrite <- E1.
+    destruct c as [[] [] [] [] [] [] [] []]; try (rewrite E1; rewrite <- E1; apply parse_print_N; lia); congruence.
+Qed.
+
+Theorem int_codec_rt_lemma z : field_rt CInt (VInt z).
+Proof. exists (print_Z z). simpl. rewrite parse_print_Z. split; reflexivity. Qed.
+
+Theorem oct_codec_rt_lemma z : field_rt COct (VInt z) /\ field_rt COct VNone.
+Proof.
+  split.
+  - exists (print_Z z). simpl. split; [reflexivity|].
+    destruct (String.eqb (print_Z z) "-") eqn:E.
+    + apply String.eqb_eq in E. pose proof (parse_print_Z z) as H. rewrite E in H. discriminate.
+    + rewrite parse_print_Z. reflexivity.
+  - exists "-". split; reflexivity.
+Qed.
+
+(* attribute lists of any length: items non-empty and free of commas *)
+Definition items_ok (l : list string) : Prop :=
+  Forall (fun s => count_char comma s = O /\ nonempty s = true) l.
+
+Lemma dec_list_join l : items_ok l -> dec_list (join comma l) = l.
+Proof.
+  intros H. unfold dec_list. destruct l as [|x r]; [reflexivity|].
+  assert (Hne : nonempty (join comma (x :: r)) = true).
+  { inversion H as [|? ? [_ Hx] _]; subst. destruct x; [discriminate|]. destruct r; reflexivity. }
+  rewrite Hne. apply split_join; [discriminate|].
+  eapply Forall_impl; [|exact H]. intros a [Ha _]. exact Ha.
+Qed.
+
+Theorem list_codec_rt_lemma l : items_ok l -> field_rt CListIn (VList l) /\ field_rt CList (VList l).
+Proof.
+  intros H. split.
+  - exists (join comma l). simpl. rewrite dec_list_join by exact H. split; reflexivity.
+  - exists (String "[" (join comma l ++ "]")). simpl. split; [reflexivity|].
+    unfold unbracket. rewrite strip_suffix_app, dec_list_join by exact H. reflexivity.
+Qed.
+
+Lemma no_comma_digits s : all_chars is_digit s = true -> count_char comma s = O.
+Proof. intros H. eapply count_char_none; [exact H | reflexivity]. Qed.
+
+End Lines.
+
+(* ------------------------------------------------------------------ key signatures (complete tabulation) *)
+
+Definition key0s : list key0 := list_prod (zrange (-7) 15) [false; true].
+
+Lemma key0s_In f mi : -7 <= f <= 7 -> In (f, mi) key0s.
+Proof.
+  intros H. apply in_prod; [apply zrange_In; simpl; lia | destruct mi; simpl; auto].
+Qed.
+
+Lemma key0_eqb_eq a b : key0_eqb a b = true -> a = b.
+Proof.
+  destruct a, b. unfold key0_eqb. simpl. intros H. apply andb_true_iff in H as [H1 H2].
+  apply Z.eqb_eq in H1. apply Bool.eqb_prop in H2. congruence.
+Qed.
+Lemma key1_eqb_eq a b : key1_eqb a b = true -> a = b.
+Proof.
+  destruct a as [a [a2|]], b as [b [b2|]]; unfold key1_eqb; simpl; intros H;
+    apply andb_true_iff in H as [H1 H2]; try discriminate;
+    apply key0_eqb_eq in H1; subst; [apply key0_eqb_eq in H2; subst|]; reflexivity.
+Qed.
+
+Definition key1_rt_b (fmt : Z) (k : key1) : bool :=
+  match print_key1 key_tab fmt k with
+  | Some t => match parse_key1 key_tab fmt t with Some k' => key1_eqb k' k | None => false end
+  | None => false
+  end.
+
+Lemma key1_rt_b_spec fmt k : key1_rt_b fmt k = true ->
+  exists t, print_key1 key_tab fmt k = Some t /\ parse_key1 key_tab fmt t = Some k.
+Proof.
+  unfold key1_rt_b. destruct (print_key1 key_tab fmt k) as [t|]; [|discriminate].
+  destruct (parse_key1 key_tab fmt t) as [k'|] eqn:E; [|discriminate].
+  intros H. apply key1_eqb_eq in H. subst. exists t. split; [reflexivity | exact E].
+Qed.
+
+Lemma keys_single_all :
+  forallb (fun fmt => forallb (fun k => key1_rt_b fmt (k, None)) key0s) [0; 1; 3] = true.
+Proof. vm_compute. reflexivity. Qed.
+Lemma keys_alt_all :
+  forallb (fun fmt => forallb (fun p => key1_rt_b fmt (fst p, Some (snd p))) (list_prod key0s key0s)) [1; 3] = true.
+Proof. vm_compute. reflexivity. Qed.
+
+Theorem keysig_codec_rt_lemma fmt f mi :
+  In fmt [0; 1; 3] -> -7 <= f <= 7 ->
+  field_rt key_tab (CKey fmt false) (VKey ((f, mi), None) []).
+Proof.
+  intros Hfmt Hf. pose proof keys_single_all as H. rewrite forallb_forall in H.
+  specialize (H fmt Hfmt). rewrite forallb_forall in H. specialize (H (f, mi) (key0s_In f mi Hf)).
+  apply key1_rt_b_spec in H as [t [H1 H2]].
+  exists t. cbn [enc dec norm]. split; [exact H1|]. rewrite H2. reflexivity.
+Qed.
+
+Theorem keysig_alt_codec_rt_lemma fmt f mi f2 mi2 :
+  In fmt [1; 3] -> -7 <= f <= 7 -> -7 <= f2 <= 7 ->
+  field_rt key_tab (CKey fmt false) (VKey ((f, mi), Some (f2, mi2)) []).
+Proof.
+  intros Hfmt Hf Hf2. pose proof keys_alt_all as H. rewrite forallb_forall in H.
+  specialize (H fmt Hfmt). rewrite forallb_forall in H.
+  specialize (H ((f, mi), (f2, mi2)) (in_prod _ _ _ _ (key0s_In f mi Hf) (key0s_In f2 mi2 Hf2))).
+  apply key1_rt_b_spec in H as [t [H1 H2]].
+  exists t. cbn [enc dec norm fst snd] in *. split; [exact H1|]. rewrite H2. reflexivity.
+Qed.
+
+(* the implementation itself (its tabulated graph): every key, written in any spelling, is read back *)
+Definition row_key (r : Z * Z * bool * option string * option (Z * bool)) : Z * key0 :=
+  let '(fmt, f, mi, _, _) := r in (fmt, (f, mi)).
+Definition row_ok (r : Z * Z * bool * option string * option (Z * bool)) : bool :=
+  let '(fmt, f, mi, t, p) := r in
+  match t, p with Some _, Some (f', mi') => (f' =? f) && Bool.eqb mi' mi | _, _ => false end.
+
+Lemma key_rows_complete : map row_key key_rows = list_prod [0; 1; 3] key0s.
+Proof. vm_compute. reflexivity. Qed.
+Lemma key_rows_ok : forallb row_ok key_rows = true.
+Proof. vm_compute. reflexivity. Qed.
+
+Theorem keysig_bijection_30_lemma fmt f mi :
+  In fmt [0; 1; 3] -> -7 <= f <= 7 ->
+  exists t, In (fmt, f, mi, Some t, Some (f, mi)) key_rows.
+Proof.
+  intros Hfmt Hf.
+  assert (Hin : In (fmt, (f, mi)) (map row_key key_rows)).
+  { rewrite key_rows_complete. apply in_prod; [exact Hfmt | apply key0s_In; exact Hf]. }
+  apply in_map_iff in Hin as [[[[[fmt' f'] mi'] t] p] [Hk Hin]].
+  simpl in Hk. inversion Hk; subst.
+  pose proof key_rows_ok as H. rewrite forallb_forall in H. specialize (H _ Hin). simpl in H.
+  destruct t as [t|]; [|discriminate]. destruct p as [[f'' mi'']|]; [|discriminate].
+  apply andb_true_iff in H as [H1 H2]. apply Z.eqb_eq in H1. apply Bool.eqb_prop in H2. subst.
+  exists t. exact Hin.
+Qed.
+
+(* ------------------------------------------------------------------ durations *)
+
+Lemma bound_pair_noop n d : n <= frac_bound -> d <= frac_bound -> bound_pair n d = (n, d).
+Proof.
+  intros Hn Hd. unfold bound_pair.
+  replace (frac_bound <? n) with false by (symmetry; apply Z.ltb_ge; exact Hn).
+  replace (frac_bound <? d) with false by (symmetry; apply Z.ltb_ge; exact Hd). reflexivity.
+Qed.
+
+Theorem frac_add_exact_lemma f g :
+  let d1 := fden f * tdiv (ftd f) in
+  let d2 := fden g * tdiv (ftd g) in
+  0 < d1 -> 0 < d2 ->
+  Z.lcm d1 d2 <= frac_bound ->
+  (Z.lcm d1 d2 / d1) * fnum f + (Z.lcm d1 d2 / d2) * fnum g <= frac_bound ->
+  (frac_value (frac_add f g) == frac_value f + frac_value g)%Q.
+Proof.
+  intros d1 d2 H1 H2 HL HN. unfold frac_add. fold d1 d2.
+  unfold mk_frac. rewrite bound_pair_noop by assumption.
+  unfold frac_value; cbn [fnum fden ftd tdiv]. fold d1 d2.
+  set (L := Z.lcm d1 d2) in *.
+  assert (HLpos : 0 < L).
+  { pose proof (Z.lcm_nonneg d1 d2). assert (L <> 0) by (unfold L; intros E; apply Z.lcm_eq_0 in E; lia). lia. }
+  destruct (Z.divide_lcm_l d1 d2) as [k1 Hk1]. destruct (Z.divide_lcm_r d1 d2) as [k2 Hk2].
+  fold L in Hk1, Hk2.
+  assert (E1 : L / d1 = k1) by (rewrite Hk1; apply Z.div_mul; lia).
+  assert (E2 : L / d2 = k2) by (rewrite Hk2; apply Z.div_mul; lia).
+  rewrite E1, E2, Z.mul_1_r.
+  unfold Qeq, Qplus. cbn [Qnum Qden]. rewrite Pos2Z.inj_mul, !Z2Pos.id by lia.
+  clear E1 E2 HN HL HLpos. clearbody L d1 d2.
+  transitivity (fnum f * d2 * L + fnum g * d1 * L); [|ring].
+  rewrite Hk1 at 1. rewrite Hk2. ring.
+Qed.
+
+(* additive components are concatenated, zero numerators dropped *)
+Theorem frac_add_components_lemma f g :
+  fcomps (frac_add f g) =
+  Some (filter (fun c : triple => negb (fst (fst c) =? 0)) (frac_comps f ++ frac_comps g)).
+Proof. unfold frac_add, mk_frac. destruct (bound_pair _ _). reflexivity. Qed.
+
+(* the boundary: above the bound the numeric value of a sum is only approximated *)
+Theorem frac_add_inexact_above_bound_lemma :
+  exists f g, fnum f <= frac_bound /\ fden f <= frac_bound /\ fnum g <= frac_bound /\ fden g <= frac_bound /\
+    ~ (frac_value (frac_add f g) == frac_value f + frac_value g)%Q.
+Proof.
+  exists (mkfrac 1 1000 None None), (mkfrac 1 999 None None).
+  repeat split; vm_compute; discriminate.
+Qed.
+
+Theorem frac_bound_partial_lemma :
+  bound_pair 1025 1023 = (2, 2) /\ bound_pair 2048 4 = (1024, 2) /\ bound_pair 3 2048 = (1, 128).
+Proof. vm_compute. repeat split. Qed.
+
+(* ------------------------------------------------------------------ the reflected schemas *)
 
 Lemma reflected_schemas_wellformed_lemma :
   forallb (fun p => schema_wf (snd p)) all_schemas = true.
 Proof. vm_compute. reflexivity. Qed.
+
+(* the hypotheses are satisfiable on a reflected schema: sustain(711360,22). *)
+Lemma example_sustain_fields_ok : fields_ok key_tab sch_sustain_v1_0_0 [VInt 711360; VInt 22].
+Proof.
+  split.
+  - change (codecs sch_sustain_v1_0_0) with [CInt; CInt].
+    repeat constructor; apply int_codec_rt_lemma.
+  - eexists. split; vm_compute; reflexivity.
+Qed.
+
+Lemma example_sustain_lemma :
+  exists s, format_line key_tab sch_sustain_v1_0_0 [VInt 711360; VInt 22] = Some s /\
+            parse_line key_tab sch_sustain_v1_0_0 s = Some [VInt 711360; VInt 22].
+Proof.
+  apply (line_roundtrip_lemma key_tab sch_sustain_v1_0_0 [VInt 711360; VInt 22]).
+  - vm_compute. reflexivity.
+  - exact example_sustain_fields_ok.
+Qed.
